@@ -120,7 +120,7 @@ def reader_run(pid, tier, mcs, mult, known_match=None, rbufs=RBUFS, chunks=CHUNK
     if max_progs and len(progs) > max_progs:
         rnd = random.Random(seed)
         # small sub-spaces that must not be lost by sampling (e.g. the big-limit claim shapes of C06) are always kept
-        keep = lambda p: p.get("limit", 0) >= (1 << 30) or (p.get("pmce") and p.get("limit", 0) > 0)
+        keep = lambda p: p.get("limit", 0) >= (1 << 30) or (p.get("pmce") and p.get("limit", 0) > 0) or (pid == "C03" and p.get("limit", 0) > 0)
         always = [p for p in progs if keep(p)]
         others = [p for p in progs if not keep(p)]
         progs = always + rnd.sample(others, max(0, max_progs - len(always)))
